@@ -38,16 +38,20 @@ EXTENDS IntLinAlg
 SpatialOf(X) == [i \in 1..(Len(X) - 1) |-> X[i + 1]]
 KleinOf(X) == [i \in 1..(Len(X) - 1) |-> R(X[i + 1], X[1])]
 NegNorm(X) == 0 - MNorm(X)                                   \* -<X,X>: > 0 inside, = 0 ideal
-\* a U + b V, the point of the chord between the ideal points U, V with weights ab = <<a, b>>
-OnChord(U, V, ab) == VAdd(VScale(ab[1], U), VScale(ab[2], V))
-\* -<aU+bV, aU+bV> for null vectors U, V (no large products)
-ChordNegNorm(U, V, ab) == 2 * ab[1] * ab[2] * (0 - MDot(U, V))
-\* P = aU+bV comes strictly before Q = cU+dV when walking along the geodesic from U to V
+\* the point of the chord between the ideal points U, V with Klein coordinates (a u + b v)/(a + b), ab = <<a, b>>,
+\* a, b >= 0 not both 0:  the vector  a V0 U + b U0 V
+Weights(U, V, ab) == <<ab[1] * V[1], ab[2] * U[1]>>
+OnChord(U, V, ab) == VAdd(VScale(ab[1] * V[1], U), VScale(ab[2] * U[1], V))
+\* -<P,P> for P = OnChord(U, V, ab) is the product of these factors (null vectors U, V); kept as factors because
+\* the product of the near-diameter family exceeds 32 bits
+ChordNegNormFactors(U, V, ab) == <<2, ab[1] * V[1], ab[2] * U[1], 0 - MDot(U, V)>>
+\* P = OnChord(U, V, ab) comes strictly before Q = OnChord(U, V, cd) when walking along the geodesic from U to V
 ChordBefore(ab, cd) == ab[2] * cd[1] < ab[1] * cd[2]
 
-\* Poincare coordinates are  xs / (x0 + sqrt(nn)) : emitted as this record, evaluated in floating point by the harness
-PoincareSurd(X) == [xs |-> SpatialOf(X), x0 |-> X[1], nn |-> NegNorm(X)]
-ChordPoincareSurd(U, V, ab) == [xs |-> SpatialOf(OnChord(U, V, ab)), x0 |-> OnChord(U, V, ab)[1], nn |-> ChordNegNorm(U, V, ab)]
+\* Poincare coordinates are  xs / (x0 + sqrt(nn)) : emitted as this record (nn as a list of factors), evaluated in
+\* floating point by the harness
+PoincareSurd(X) == [xs |-> SpatialOf(X), x0 |-> X[1], nn |-> <<NegNorm(X)>>]
+ChordPoincareSurd(U, V, ab) == [xs |-> SpatialOf(OnChord(U, V, ab)), x0 |-> OnChord(U, V, ab)[1], nn |-> ChordNegNormFactors(U, V, ab)]
 
 (***************************************************************************)
 (* rational vectors through one common denominator                         *)
@@ -98,7 +102,7 @@ OrientH(A, B, C) == Sgn(Det3(A, B, C))
 \* from one to the other that stays inside the disc
 PoincareFirst(W, X, Y) == IF OrientH(W, X, Y) > 0 THEN 1 ELSE 2
 PoincareFirstOf(X, Y) == PoincareFirst(Normal3(X, Y), X, Y)
-\* the same for the points a1 U + b1 V, a2 U + b2 V of the chord between the ideal points U, V
+\* the same for the points OnChord(U, V, ab1), OnChord(U, V, ab2) of the chord between the ideal points U, V
 PoincareFirstOnChord(U, V, ab1, ab2) == IF (OrientH(IdealPole(U, V), U, V) > 0) = ChordBefore(ab1, ab2) THEN 1 ELSE 2
 \* the same for points given by rational affine coordinates
 Homog(rv) == <<CommonDen(rv)>> \o Numerators(rv)
@@ -115,8 +119,8 @@ HsHoriz(X) == [i \in 1..(Len(X) - 2) |-> R(0 - X[i + 2], HsDen(X))]
 HsHeightSq(X) == R(NegNorm(X), HsDen(X) * HsDen(X))
 HsOnBoundary(h) == Append(h, RZero)                 \* horizontal coordinates -> point of the boundary
 \* emitted form of half-space coordinates: horizontal part exact, height = sqrt(nn) / den
-HalfSurd(X) == [h |-> HsHoriz(X), nn |-> NegNorm(X), den |-> HsDen(X)]
-ChordHalfSurd(U, V, ab) == [h |-> HsHoriz(OnChord(U, V, ab)), nn |-> ChordNegNorm(U, V, ab), den |-> HsDen(OnChord(U, V, ab))]
+HalfSurd(X) == [h |-> HsHoriz(X), nn |-> <<NegNorm(X)>>, den |-> HsDen(X)]
+ChordHalfSurd(U, V, ab) == [h |-> HsHoriz(OnChord(U, V, ab)), nn |-> ChordNegNormFactors(U, V, ab), den |-> HsDen(OnChord(U, V, ab))]
 \* geodesic with ideal end points U, V (neither at infinity): half-sphere centred on the boundary
 HsGeoCentre(U, V) == RScale(RHalf, RVAdd(HsHoriz(U), HsHoriz(V)))
 HsGeoRadSq(U, V) == RMul(<<1, 4>>, DistSqCD(HsHoriz(U), HsHoriz(V)))
